@@ -11,8 +11,8 @@ DIMS = {
     "case": ["lower", "upper", "mixed"],
     "pad": ["one", "none", "many", "tabs"],
     "indent": ["none", "spaces", "tab"],
-    "blanks": [0, 1, 2, 3],
-    "between": ["nothing", "code_line", "comment_line", "other_directive", "directive_after", "directive_trailing"],
+    "blanks": [0, 1, 2, 3, 5],
+    "between": ["nothing", "code_line", "code_then_comment", "comment_line", "other_directive", "directive_after", "directive_trailing"],
     "nstmts": [1, 2, 3],
     "multiline": [False, True],
     "mb": ["none", "before_on_line", "unicode_neighbour"],
@@ -54,7 +54,7 @@ def effect_of(row):
         return "no-kvp" if row["directive"] == "ignore" else "ignore"
     if row["directive"] not in ("ignore", "no-kvp"):
         return "none"
-    if row["between"] in ("code_line", "comment_line", "directive_after", "directive_trailing"):
+    if row["between"] in ("code_line", "code_then_comment", "comment_line", "directive_after", "directive_trailing"):
         return "none"
     return row["directive"]
 
@@ -94,6 +94,8 @@ def build(fileseed, rows, eol):
             gf.raw(ind + dtext + eol)
             if b == "code_line":
                 gf.raw(ind + "let between = 1;" + eol)
+            elif b == "code_then_comment":
+                gf.raw(ind + "let between = 1; // an ordinary remark" + eol)
             elif b == "comment_line":
                 gf.raw(ind + "// just a remark" + eol)
             elif b == "other_directive":
